@@ -19,6 +19,9 @@ pub fn prop() -> Prop {
 // `Affine::svd` forms fourth powers of the coefficients (|k| <= 200). Beyond that the code cannot represent its
 // own intermediate results and nothing is claimed.
 const W_POLY: i64 = 450; // Rect, Triangle, Line, winding_inner
+// Rect::winding only compares coordinates, so its laws can go further: far enough that the PRODUCT of the extents
+// underflows (a seeded change that took the orientation from `area() < 0.0` was missed at |k| <= 450)
+const W_RECT: i64 = 540;
 const W_ROUND: i64 = 400; // RoundedRect, Circle, CircleSegment
 const W_ELL: i64 = 200; // Ellipse (svd)
 fn pow2(k: i64) -> f64 {
@@ -1080,6 +1083,33 @@ fn law_line(x: &[f64]) -> Option<(String, String)> {
 
 // every law generator: the unit-scale configuration above, then the scale sweep over its lengths (not its angles,
 // unit-disc coordinates or flags)
+/// Rect::winding alone, at scales where the product of the extents underflows or overflows: the closed form only
+/// compares coordinates, so the half-open rule and the orientation sign (sign of (x1-x0)*(y1-y0) decided from the
+/// corner ORDER, not from a product) must hold for every finite rectangle.
+fn law_rect_winding_extreme(a: &[f64]) -> Option<(String, String)> {
+    let rect = Rect::new(a[0], a[1], a[2], a[3]);
+    let p = Point::new(a[4], a[5]);
+    let (xmin, xmax) = (a[0].min(a[2]), a[0].max(a[2]));
+    let (ymin, ymax) = (a[1].min(a[3]), a[1].max(a[3]));
+    let inside = p.x >= xmin && p.x < xmax && p.y >= ymin && p.y < ymax;
+    let flipped = (a[2] < a[0]) != (a[3] < a[1]);
+    let want = if inside { if flipped { -1 } else { 1 } } else { 0 };
+    let got = Shape::winding(&rect, p);
+    if got != want {
+        return fail("rect-winding:extreme-scale", format!("{:?} at {:?}: winding {} but the half-open rule with orientation from the corner order gives {}", rect, p, got, want));
+    }
+    None
+}
+fn gs_rect_extreme(r: &mut Rng) -> Vec<f64> {
+    let mut v = g_rect_pt(r);
+    v.truncate(6);
+    let k = if r.chance(2, 3) { r.range_i(-W_RECT - 80, -W_RECT + 10) } else { r.range_i(W_POLY, W_RECT - 40) };
+    let s = pow2(k);
+    for x in v.iter_mut() {
+        *x *= s;
+    }
+    v
+}
 fn gs_rect_pt(r: &mut Rng) -> Vec<f64> {
     let v = g_rect_pt(r);
     scale_args(r, v, 0..6, W_POLY)
@@ -1132,6 +1162,7 @@ fn gs_line(r: &mut Rng) -> Vec<f64> {
 fn laws() -> Vec<Law> {
     vec![
         Law { name: "rect_vs_outline", gen: gs_rect_pt, check: law_rect, weight: 3 },
+        Law { name: "rect_winding_extreme_scale", gen: gs_rect_extreme, check: law_rect_winding_extreme, weight: 1 },
         Law { name: "rect_tiling", gen: gs_tiling, check: law_tiling, weight: 3 },
         Law { name: "rounded_rect_vs_outline", gen: gs_rr_pt, check: law_rounded_rect, weight: 4 },
         Law { name: "circle_vs_outline", gen: gs_circle_pt, check: law_circle, weight: 1 },
